@@ -238,7 +238,7 @@ def judge(text, ir, model_lines):
             stats['updates'] += 1
             reg = json.loads(s['arg'])
             own = [l.split(' ', 1)[1].replace(' ALT ', ' ') for l in lines if l.startswith('@%s ' % q)]
-            iobs = parse_obs(own)
+            iobs = parse_obs([l for l in own if ' = ' in l or len(l.split()) >= 2])
             mobs = parse_obs(model_lines.get(s['id'], []))
             ev = coresuite.evaluate(reg, q, iobs, mobs)
             stats['tuples'] += ev['tuples']; stats['err_tuples'] += ev['err_tuples']
